@@ -36,10 +36,12 @@ def listing_count(run):
     return int(m.group(1)) if m else None
 
 
-def reference(ctx, scn, ev, max_steps=None, observe=True):
+def reference(ctx, scn, ev, max_steps=None, observe=None):
     """Runs the canonical schedule.  Returns Ref (ref.started False if the tool
     refused the input before the first prompt)."""
     ref = Ref()
+    if observe is None:
+        observe = scn.get("observe", True)
     if max_steps is None:
         # one cheap run to learn the length of the listing
         w0 = session.build_world(scn, sched=[], faults=False)
